@@ -67,6 +67,8 @@ type ccase struct {
 	HasFailKind   bool
 	Padded        bool // contains the ptr-padded-1100 quota request
 	LeftoverLocal bool // quota: delayed + undownloadable + cleaned before the list
+	Filt          *filtCfg // non-nil: include/exclude/skip configuration coordinate (inclexcl.go)
+	RealVar       string   // real-Git scenario: coordinates drawn while it ran (part of the class)
 }
 
 var objSizes = []int{1, 2, 100, 1000, 1023, 1024, 1025, 4096, 65515, 65516, 65517, 131075}
@@ -100,6 +102,9 @@ var pathPool = []string{"a.bin", "dir/f.bin", "dir/sub dir/g h.bin", "x=y.bin", 
 
 func (g *gen) path() string {
 	g.npath++
+	if g.c.Filt != nil {
+		return filtPath(g.r, g.npath)
+	}
 	p := pathPool[g.r.Intn(len(pathPool))]
 	i := strings.LastIndex(p, ".")
 	return fmt.Sprintf("%s-%d%s", p[:i], g.npath, p[i:])
@@ -131,6 +136,24 @@ func (g *gen) objects() {
 	for len(c.Objects) < n {
 		o := &object{Idx: len(c.Objects)}
 		x := r.Intn(100)
+		if c.Filt != nil {
+			// include/exclude programs: more local objects (a not allowed path whose
+			// object is local must stay a pointer), fewer faults
+			switch {
+			case x < 40:
+				x = 0 // local
+			case x < 74:
+				x = 30 // server
+			case x < 80:
+				x = 70 // flaky
+			case x < 87:
+				x = 80 // missing
+			case x < 94:
+				x = 90 // failing
+			default:
+				x = 99 // batcherr
+			}
+		}
 		switch {
 		case x < 25:
 			o.Kind = kLocal
@@ -426,6 +449,9 @@ func genCase(idx int, seed int64, tierThorough bool) *ccase {
 // class: the coordinates of the quantifier this program hit.
 func (c *ccase) class() string {
 	if c.Real != "" {
+		if c.RealVar != "" {
+			return "realgit/" + c.Real + "/" + c.RealVar
+		}
 		return "realgit/" + c.Real
 	}
 	kinds := map[string]bool{}
@@ -475,6 +501,9 @@ func (c *ccase) class() string {
 	}
 	if c.LeftoverLocal {
 		s += "/leftover-local"
+	}
+	if c.Filt != nil {
+		s += "/" + c.Filt.class()
 	}
 	if c.Race {
 		s += "/race"
